@@ -173,6 +173,15 @@ Theorem clients_cannot_close : forall (S : Type) (ps : plugins_chk S) (blocked :
   l_listener (lstep ps blocked env_step st ev) = l_listener st /\ l_env (lstep ps blocked env_step st ev) = l_env st.
 Proof. exact client_events_keep_listener. Qed.
 
+(** Requests that are not UTF-8 or name no plugin: the same [error] reply in every state, no
+    effect -- at whatever point among the other connections' events the handler runs. *)
+Theorem rejected_requests_schedule_independent : forall (S : Type) (ps : plugins_chk S) (req : bytes),
+  (utf8_decode req = None \/
+   exists line, utf8_decode req = Some line /\ lookup_chk (request_name (quoted_str_split line)) ps = None) ->
+  exists d, starts_with (B "error") d = true /\
+            forall s, handle_chk ps req s = Ok ({| hr_data := d; hr_close := false |}, s).
+Proof. exact rejected_reply_constant. Qed.
+
 (** The plugin table of the concurrent sessions satisfies the hypothesis. *)
 Theorem fixture_plugins_total : plugins_total fx_plugins_chk.
 Proof. exact fx_plugins_chk_total. Qed.
